@@ -6,8 +6,25 @@ matcher (brute.py) over enumerated values and compares with the real compiler dr
 through /verif/target/release/aiken-run (`infer[_many]` for the checker verdicts,
 `compile_eval` for the run-time clause selection and bindings).
 
-    python3 run_c07.py --tier quick|thorough --seed S [--only exh,rand,let] [--jobs N]
-    run(tier, seed) -> dict(evaluations, distinct, samples, violations, inconclusive, counters, exhaustive)
+    python3 run_c07.py --tier quick|thorough --seed S [--only exh,rand,let] [--jobs N] [--json]
+    run(tier, seed) -> dict(evaluations, distinct, samples, violations, inconclusive, counters, exhaustive, ...)
+
+Slices
+  exh   ALL clause lists (<= 3, for small universes <= 4 clauses) over the complete var-free pattern
+        universe (depth <= 2; tuples/pairs <= 3) of 9 small types, plus ALL lists [p, q, _] over the
+        80 list patterns (<= 3 elements, with/without `..`) of List<Option<Bool>>.  Patterns are then
+        "decorated" (variables, `as`, labelled / spread constructor syntax) by a seeded rng: that
+        changes the bindings observed at run time, not the matched sets.
+  rand  deeper random types (library + random ADT declarations, nesting <= 3), <= 6 clauses,
+        split-based partitions mutated towards almost-exhaustive / almost-redundant lists,
+        alternatives, and a list-focused strategy.
+  let   `let` / `expect` destructuring (value or abort).
+Checks: see check_infer (accept <=> exhaustive and no dead clause; reported patterns) and
+check_runtime (first matching clause + bindings on every enumerated value, both tracings).
+Violation keys: C07:<check>:<kind>:<class>, where <class> for run-time disagreements is the syntactic
+feature class of the clause list (see `feature`).  Environment: C07_STRICT_COVER=1 also demands that
+the reported unmatched patterns cover every unmatched value (FINDINGS.md N1); C07_DEBUG=1 prints
+inconclusive cases to stderr.  Triage tool: minimise.py.
 """
 import os
 import sys
@@ -33,9 +50,9 @@ TRACINGS = ["silent-all", "verbose-all"]
 ALLOWED_ABORT = {"EvaluationFailure", "EmptyList", "DeserialisationError"}
 
 TIERS = {
-    "quick": dict(univ_cap=26, max_len=3, len4_univ=8, list_max=2, extra_types=False, n_random=12000, n_let=3000, rt_batch=20, infer_batch=150, val_cap=1500, rt_value_cap=400),
+    "quick": dict(univ_cap=26, max_len=3, len4_univ=8, list_max=2, extra_types=False, n_random=10000, n_let=2500, rt_batch=20, infer_batch=150, val_cap=1500, rt_value_cap=400),
     "thorough": dict(univ_cap=40, max_len=3, len4_univ=17, list_max=3, extra_types=True, n_random=150000, n_let=30000, rt_batch=20, infer_batch=150, val_cap=4000, rt_value_cap=1500),
-    "smoke": dict(univ_cap=8, max_len=2, len4_univ=0, list_max=2, extra_types=False, n_random=300, n_let=150, rt_batch=20, infer_batch=100, val_cap=800, rt_value_cap=200),
+    "smoke": dict(univ_cap=8, max_len=2, len4_univ=0, list_max=2, extra_types=False, pairs_slice=False, n_random=300, n_let=150, rt_batch=20, infer_batch=100, val_cap=800, rt_value_cap=200),
 }
 
 # ----------------------------------------------------------------- the exhaustive slice
@@ -64,8 +81,26 @@ EXH_EXTRA = [
 ]
 
 
+# "pairs + catch-all" sub-slice: ALL clause lists [p, q, _] over the complete depth-2 universe of
+# list patterns with up to 3 elements (with / without `..`): clauses of different lengths that
+# inspect different element positions (this is where the decision-tree generator keeps one
+# matrix per list length)
+EXH_PAIRS = [
+    ("List<Option<Bool>> [p, q, _]", T.List(T.Option(T.BOOL)), 2, dict(list_max=3, cap=10**6, lens=(2,), suffix_wild=True, bind=(3, 4), spread=0, values="directed")),
+]
+
+
 def exh_types(cfg):
-    return EXH_TYPES + (EXH_EXTRA if cfg.get("extra_types") else [])
+    return EXH_TYPES + (EXH_PAIRS if cfg.get("pairs_slice", True) else []) + (EXH_EXTRA if cfg.get("extra_types") else [])
+
+
+def exh_entry(cfg, entry):
+    """-> (name, type, depth, options) with the tier defaults filled in."""
+    name, t, depth = entry[:3]
+    opt = dict(list_max=cfg["list_max"], cap=cfg["univ_cap"], lens=None, suffix_wild=False, bind=(1, 2), spread=1, values="uniform")
+    if len(entry) > 3:
+        opt.update(entry[3])
+    return name, t, depth, opt
 
 
 def exh_universe(t, depth, cap, seed, list_max=2):
@@ -96,16 +131,20 @@ def exh_universe(t, depth, cap, seed, list_max=2):
 def exh_specs(cfg, seed):
     specs = []
     meta = {}
-    for ti, (name, t, depth) in enumerate(exh_types(cfg)):
-        uni, full = exh_universe(t, depth, cfg["univ_cap"], seed, cfg["list_max"])
+    for ti, entry in enumerate(exh_types(cfg)):
+        name, t, depth, opt = exh_entry(cfg, entry)
+        uni, full = exh_universe(t, depth, opt["cap"], seed, opt["list_max"])
         n = len(uni)
-        maxlen = cfg["max_len"] + (1 if n <= cfg["len4_univ"] else 0)
+        if opt["lens"]:
+            lens = list(opt["lens"])
+        else:
+            lens = list(range(1, cfg["max_len"] + (1 if n <= cfg["len4_univ"] else 0) + 1))
         count = 0
-        for ln in range(1, maxlen + 1):
+        for ln in lens:
             for combo in itertools.product(range(n), repeat=ln):
                 specs.append(("exh", ti, combo))
                 count += 1
-        meta[name] = dict(universe=n, structural_universe_uncapped=full, depth=depth, max_clauses=maxlen, clause_lists=count, complete=(len([c for c in uni if len(c) == 1]) == full))
+        meta[name] = dict(universe=n, structural_universe_uncapped=full, depth=depth, clauses=lens, suffix_wild=opt["suffix_wild"], clause_lists=count, complete=(len([c for c in uni if len(c) == 1]) == full))
     return specs, meta
 
 
@@ -125,7 +164,13 @@ def rand_decl(seed, k):
     return _rand_decl_cache[key]
 
 
-def rand_type(rng, d, seed):
+def rand_type(rng, d, seed, top=False):
+    if top and d >= 2 and rng.chance(1, 4):
+        # focus: lists of structured elements (several inspected positions inside one list
+        # pattern stress the decision tree's per-length matrices and column bookkeeping)
+        inner = T.List(rng.pick([T.BOOL, T.INT, T.BOOL]))
+        el = rng.pick([inner, T.Option(T.BOOL), T.Option(T.INT), T.Adt(T.LIB["Sw"]), T.Adt(T.LIB["Color"]), T.Tuple(T.BOOL, T.BOOL), T.Option(inner), T.Adt(T.LIB["Either"], T.BOOL, T.BOOL), T.BOOL])
+        return T.List(el)
     if d <= 1 or rng.chance(1, 5):
         return rng.pick(LEAF_TYPES)
     r = rng.below(20)
@@ -167,8 +212,27 @@ def split_partition(rng, t, target):
     return clauses
 
 
+def list_focus_clauses(rng, t):
+    """Clause lists over a List<..> scrutinee in which several element positions of one list
+    pattern are inspected and the clauses have different lengths (stresses the per-length
+    matrices and the column bookkeeping of the decision-tree generator)."""
+    el = t.args[0]
+    cl = []
+    for _ in range(rng.range(2, 4)):
+        n = rng.range(1, 3)
+        elems = tuple(P.rand_pat(rng, el, rng.range(1, 2), leaf=(0, 1)) if rng.chance(1, 2) else P.WILD for _ in range(n))
+        cl.append([("l", elems, P.WILD if rng.chance(3, 5) else None)])
+    if rng.chance(1, 4):
+        cl.insert(rng.below(len(cl) + 1), [("l", (), None)])
+    if rng.chance(3, 4):
+        cl.append([P.WILD])
+    return cl
+
+
 def gen_random_clauses(rng, t):
     """-> [[alt patterns]] (var-free structural patterns; decorated later)."""
+    if t.kind == "List" and rng.chance(2, 3):
+        return list_focus_clauses(rng, t)
     strat = rng.below(10)
     if strat < 3:
         n = rng.range(1, 6)
@@ -178,7 +242,7 @@ def gen_random_clauses(rng, t):
         return cl[:6]
     cl = [[p] for p in split_partition(rng, t, rng.range(1, 6))]
     for _ in range(rng.pick([0, 1, 1, 1, 2, 2, 3])):
-        op = rng.below(8)
+        op = rng.pick([0, 0, 0, 1, 1, 2, 3, 3, 3, 4, 5, 6, 7])
         i = rng.below(len(cl))
         if op == 0 and len(cl) > 1:  # almost exhaustive
             del cl[i]
@@ -207,9 +271,9 @@ def gen_random_clauses(rng, t):
     return cl[:6]
 
 
-def decorate_clause(rng, alts, t):
+def decorate_clause(rng, alts, t, bind=(1, 2), spread=1):
     if len(alts) == 1:
-        return [P.decorate(alts[0], t, rng)]
+        return [P.decorate(alts[0], t, rng, bind=bind, spread=spread)]
     # alternatives must bind the same variables: var-free, or one shared variable
     names = P.Names()
     out = [P.restyle(a, t, rng, None) for a in alts]
@@ -223,7 +287,7 @@ def decorate_clause(rng, alts, t):
 
 
 class Case:
-    __slots__ = ("cid", "slice", "kind", "t", "clauses", "src", "spans", "fn_src", "values", "an", "complete", "uniform_checked")
+    __slots__ = ("cid", "slice", "kind", "t", "clauses", "src", "spans", "values", "an", "complete", "uniform_checked")
 
 
 def build_source(case, fn_name="pick", with_decls=True):
@@ -280,30 +344,33 @@ def make_case(spec, cfg, seed, universes):
     c.uniform_checked = False
     if spec[0] == "exh":
         _, ti, combo = spec
-        name, t, depth = exh_types(cfg)[ti]
+        name, t, depth, opt = exh_entry(cfg, exh_types(cfg)[ti])
         uni = universes[ti]
         rng = common.Rng(seed, stream=hash_int(("exh", ti, combo)))
         c.kind = "when"
         c.t = t
         structural = [uni[i] for i in combo]
-        c.clauses = [decorate_clause(rng, alts, t) for alts in structural]
-        vals = B.uniform_values(t, c.clauses)
+        if opt["suffix_wild"]:
+            structural.append([P.WILD])
+        c.clauses = [decorate_clause(rng, alts, t, bind=opt["bind"], spread=opt["spread"]) for alts in structural]
+        uv = B.uniform_values(t, c.clauses)
+        dv = None
+        try:
+            dv = B.directed_values(t, c.clauses, cap=cfg["val_cap"])
+        except T.TooBig:
+            pass
+        vals = dv if (opt["values"] == "directed" and dv is not None) else uv
         c.values = vals
         c.complete = True
         c.an = B.analyse(t, c.clauses, vals)
-        # oracle self-check: the position-directed enumeration must give the same verdicts
-        try:
-            dv = B.directed_values(t, c.clauses, cap=cfg["val_cap"])
-            a2 = B.analyse(t, c.clauses, dv)
-            c.uniform_checked = B.verdict(a2) == B.verdict(c.an)
-            if not c.uniform_checked:
-                c.uniform_checked = None  # mismatch
-        except T.TooBig:
-            pass
+        # oracle self-check: the two enumerations must give the same verdicts
+        if dv is not None:
+            a2 = B.analyse(t, c.clauses, uv if vals is dv else dv)
+            c.uniform_checked = True if B.verdict(a2) == B.verdict(c.an) else None
     elif spec[0] == "rand":
         rng = common.Rng(seed, stream=hash_int(spec))
         for attempt in range(20):
-            t = rand_type(rng, rng.pick([1, 2, 2, 3, 3]), seed)
+            t = rand_type(rng, rng.pick([1, 2, 2, 3, 3]), seed, top=True)
             structural = gen_random_clauses(rng, t)
             clauses = [decorate_clause(rng, alts, t) for alts in structural]
             vals = None
@@ -407,7 +474,8 @@ class Acc:
         self.evaluations += o.evaluations
         self.distinct |= o.distinct
         for s in o.samples:
-            if len(self.samples) < 8:
+            same = sum(1 for x in self.samples if x["slice"] == s["slice"] and (x["verdict"] == "accepted") == (s["verdict"] == "accepted"))
+            if len(self.samples) < 9 and same < (2 if s["verdict"] == "accepted" else 1):
                 self.samples.append(s)
         for k, w in o.violations:
             have = sum(1 for k2, _ in self.violations if k2 == k)
@@ -463,18 +531,21 @@ def list_shapes(p, path, out):
 
 
 def feature(c):
-    """Coarse syntactic class of a clause list, part of the violation key so that distinct
-    root causes get distinct keys:
-      tail_desc  some list position has a pattern `[.. k elems .., ..]` BEFORE a pattern
-                 `[.. j elems .., ..]` with j < k (both with a `..` tail)
-      list       list patterns occur, but not in that order
-      plain      no list pattern"""
+    """Coarse syntactic class of a clause list; part of the violation key so that distinct
+    root causes get distinct keys (precedence in this order):
+      tail_desc   some list position has a pattern with a `..` tail and k element patterns BEFORE
+                  a pattern with a `..` tail and j < k element patterns
+      tail_multi  some list position has `..`-tail patterns of two lengths i < j and a longer list
+                  pattern (exact length >= j, or `..` tail and length > j)
+      list        list patterns occur, but in neither arrangement
+      plain       no list pattern"""
     shapes = {}
     for alts in c.clauses:
         for p in alts:
             list_shapes(p, (), shapes)
     if not shapes:
         return "plain"
+    multi = False
     for seq in shapes.values():
         longest = -1
         for n, tail in seq:
@@ -482,7 +553,12 @@ def feature(c):
                 if n < longest:
                     return "tail_desc"
                 longest = max(longest, n)
-    return "list"
+        tails = sorted({n for n, tail in seq if tail})
+        if len(tails) >= 2:
+            j = tails[1]
+            if any((tail and n > j) or (not tail and n >= j) for n, tail in seq):
+                multi = True
+    return "tail_multi" if multi else "list"
 
 
 def witness(c, **kw):
@@ -840,10 +916,10 @@ def process(specs, cfg, seed, universes, shards):
         if ok:
             accepted.append(c)
             acc.count("accepted_feature_" + feature(c))
-            if len(acc.samples) < 3:
-                acc.samples.append(dict(type=T.ty_src(c.t), kind=c.kind, clauses=[" | ".join(P.show(p, c.t) for p in alts) for alts in c.clauses], values=len(c.values), verdict="accepted"))
-        elif len(acc.samples) < 6 and c.slice != "exh":
-            acc.samples.append(dict(type=T.ty_src(c.t), kind=c.kind, clauses=[" | ".join(P.show(p, c.t) for p in alts) for alts in c.clauses], values=len(c.values), verdict=(r.get("errors") or [{}])[0].get("variant")))
+            if sum(1 for x in acc.samples if x["slice"] == c.slice) < 2:
+                acc.samples.append(dict(slice=c.slice, type=T.ty_src(c.t), kind=c.kind, clauses=[" | ".join(P.show(p, c.t) for p in alts) for alts in c.clauses], values=len(c.values), verdict="accepted"))
+        elif sum(1 for x in acc.samples if x["slice"] == c.slice and x["verdict"] != "accepted") < 1:
+            acc.samples.append(dict(slice=c.slice, type=T.ty_src(c.t), kind=c.kind, clauses=[" | ".join(P.show(p, c.t) for p in alts) for alts in c.clauses], values=len(c.values), verdict=(r.get("errors") or [{}])[0].get("variant")))
     jobs = runtime_jobs(accepted, cfg, 0)
     if jobs:
         res = common.run_jobs("aiken-run", [j for j, _, _ in jobs], shards=shards, per_job_timeout=180.0)
@@ -862,9 +938,17 @@ def process(specs, cfg, seed, universes, shards):
     return acc
 
 
+def make_universes(cfg, seed):
+    out = []
+    for entry in exh_types(cfg):
+        _, t, d, opt = exh_entry(cfg, entry)
+        out.append(exh_universe(t, d, opt["cap"], seed, opt["list_max"])[0])
+    return out
+
+
 def _worker(args):
     specs, cfg, seed, tier = args
-    universes = [exh_universe(t, d, cfg["univ_cap"], seed, cfg["list_max"])[0] for _, t, d in exh_types(cfg)]
+    universes = make_universes(cfg, seed)
     return process(specs, cfg, seed, universes, shards=1)
 
 
@@ -946,7 +1030,7 @@ def main(argv=None):
     print(f"  oracle self-check (uniform vs directed enumeration) agreed on {c.get('oracle_selfcheck_agree', 0)} cases")
     print("  exhaustive slice:")
     for name, m in r["exhaustive_slice"].items():
-        print(f"    {name:24s} universe {m['universe']:3d} (of {m['structural_universe_uncapped']} structural, depth<={m['depth']}), <= {m['max_clauses']} clauses: {m['clause_lists']} lists")
+        print(f"    {name:30s} universe {m['universe']:3d} (of {m['structural_universe_uncapped']} structural, depth<={m['depth']}), clause counts {m['clauses']}{' + `_`' if m['suffix_wild'] else ''}: {m['clause_lists']} lists")
     print(f"  inconclusive: {r['inconclusive']}  ({100 * r['inconclusive_fraction']:.2f}% of cases)")
     print(f"  counters: { {k: v for k, v in c.items() if k.startswith(('agree', 'redundant', 'report', 'generator'))} }")
     vc = c["violation_counts"]
